@@ -281,10 +281,32 @@ pub fn run(rep: &mut Report) {
             let j = i / 14;
             j_next((a / 7) as usize, nd_days[(j / 5) as usize], ntods[(j % 5) as usize], ts, (a % 7) as usize, &leap, out);
         });
-        sweep(rep, &format!("c16.at[{}]", scale_name(ts)), n * 3 * 28, |i, out| {
+        // times of day: midnight, exact noon (where the stored duration of a noon-referenced scale is a whole number of
+        // days), noon +- 1 ns, the last nanosecond
+        sweep(rep, &format!("c16.at[{}]", scale_name(ts)), n * 5 * 28, |i, out| {
             let a = i % 28;
             let j = i / 28;
-            j_at((a / 7) as usize, nd_days[(j / 3) as usize], [TOD[0], TOD[4] + 1, TOD[7]][(j % 3) as usize], ts, (a % 7) as usize, &leap, out);
+            j_at((a / 7) as usize, nd_days[(j / 5) as usize], [TOD[0], 43_200 * NS_S, 43_200 * NS_S + 1, 43_200 * NS_S - 1, TOD[7]][(j % 5) as usize], ts, (a % 7) as usize, &leap, out);
+        });
+    }
+    // order independence (depth-2 operation sequences on one thread): next / previous / the at-variants from 12 dates in
+    // four scales, in every order
+    {
+        let od: Vec<i64> = [(1i64, 1i64, 1i64), (1, 3, 1), (4, 2, 29), (1400, 1, 1), (1582, 10, 15), (1899, 12, 31), (1900, 1, 1), (1900, 3, 1), (1972, 6, 30), (2000, 2, 29), (2016, 12, 31), (2017, 1, 1), (2024, 11, 30), (2400, 1, 1), (2400, 12, 31), (9999, 12, 31), (-400, 3, 1), (12_000, 7, 4)].iter().map(|(y, m, d)| days1900(*y, *m, *d)).filter(|d| *d > days1900(1, 1, 8) && *d < days1900(9999, 12, 20)).collect();
+        let os = [TimeScale::TAI, TimeScale::UTC, TimeScale::GPST, TimeScale::ET];
+        let no = od.len() as u64;
+        let lp = &leap;
+        crate::engine::order_pairs(rep, "c16.order", no * 4 * 3, |i, out| {
+            let (d, ts, k) = (od[(i % no) as usize], os[((i / no) % 4) as usize], i / (4 * no));
+            match k {
+                0 => {
+                    j_next(0, d, 43_200 * NS_S, ts, (i % 7) as usize, lp, out);
+                }
+                1 => {
+                    j_next(1, d, 1, ts, (i % 7) as usize, lp, out);
+                }
+                _ => j_at((i % 4) as usize, d, 86_399 * NS_S, ts, (i % 7) as usize, lp, out),
+            }
         });
     }
     let depth = if q { 3 } else { 4 };
